@@ -278,6 +278,11 @@ let do_reader k rep field data init =
   let pw = (match pf with Zneg _ -> Z0 | _ -> pw) in
   "pf=" ^ string_of_z pf ^ " pw=" ^ string_of_z pw ^ " rem=" ^ string_of_z rem ^ " err=" ^ es ^ " val=" ^ string_of_val (VList vs)
 
+let do_nested_reader k rep field data init wrap =
+  let (((pf, rem), e), vs) = mx_nested_reader (kind_of_string k) (rep = "1") (z_of_string field) (bytes_of_hex data) (vals_of_string init) (z_of_string wrap) in
+  let es = (match e with None -> "-" | Some (f, c) -> string_of_z f ^ ":" ^ string_of_ecls c) in
+  "pf=" ^ string_of_z pf ^ " rem=" ^ string_of_z rem ^ " err=" ^ es ^ " val=" ^ string_of_val (VList vs)
+
 let res_hex = function Panic -> "PANIC" | Ok b -> hex_of_bytes b
 
 (* programs of the generator model in the T-pico text format *)
@@ -335,6 +340,7 @@ let dispatch suite cols =
   | "progs", name :: _ -> do_progs name
   | "writer", k :: a :: r :: num :: vs :: _ -> do_writer k a r num vs
   | "reader", k :: r :: f :: data :: init :: _ -> do_reader k r f data init
+  | "nreader", k :: r :: f :: data :: init :: wrap :: _ -> do_nested_reader k r f data init wrap
   | "durdec", s :: n :: _ -> string_of_z (mx_dur_join (z_of_string s) (z_of_string n))
   | "tsdec", s :: n :: _ -> let (a, b) = mx_time_unix (z_of_string s) (z_of_string n) in string_of_z a ^ " " ^ string_of_z b
   | "durenc", d :: _ -> res_hex (mx_enc_duration (z_of_string d))
